@@ -194,9 +194,13 @@ func c13Exec(c *Case, generate bool) (*Violation, *execStats) {
 func payloadFor(vg *gen.G, lt *leafTarget, base string, merge bool) (reflect.Value, map[string]string, map[string][]string) {
 	// ygot documents that `ordered-by user` lists are unmarshalled as a whole: a merge
 	// (update) payload therefore carries no ordered-list entries; replace payloads may.
-	save := vg.P.NoOrdered
+	save := vg.P
 	vg.P.NoOrdered = merge
-	defer func() { vg.P.NoOrdered = save }()
+	// in a package generated with wrapper unions, a list keyed by a union is keyed by pointer
+	// identity: a JSON list merged into it cannot find its existing entries, which is the
+	// known limitation simple unions exist to avoid, not gNMI Set semantics
+	vg.P.NoPointerKeyed = lt.Pkg != nil && lt.Pkg.HasTag("wrapperunion")
+	defer func() { vg.P = save }()
 	payload := reflect.New(lt.StructT)
 	if lt.LastIsEntry && lt.KeySrc.IsValid() {
 		for _, n := range model.KeyNames(lt.StructSch) {
@@ -586,6 +590,16 @@ func c13Apply(s *treeState, schema *ytypes.Schema, op Op) *Violation {
 	}
 	if err != nil {
 		return violation("C13", "rejected-valid", "C13:rejected:"+sigk, "%s built from schema-conforming effects %s was rejected: %v", desc, summarise(effs), err)
+	}
+	for _, pr := range after.Problems {
+		if strings.Contains(pr, "two entries with the same key value") {
+			// One YANG key, two Go map keys: a list keyed by a union holds the key as an
+			// interface value, and the same key string can be decoded as two different members
+			// (path key "3" -> the string member, because patterns are not checked when a key
+			// is built from a path; JSON number 3 -> the uint32 member), or - with wrapper
+			// unions - as two distinct pointers. Reported under its own signature.
+			return violation("C13", "model-mismatch", "C13:twin-entries:union-keyed-list", "%s: %s (effects %s)", desc, pr, summarise(effs))
+		}
 	}
 	if d := ref.compare(after); len(d) > 0 {
 		return violation("C13", "model-mismatch", "C13:mismatch:"+sigk, "%s: tree differs from the gNMI reference semantics (effects %s): %v", desc, summarise(effs), d)
